@@ -41,6 +41,11 @@ def const_call(interp: Interp, rel: str, fn: str, args: List[int]):
     return None
 
 
+def _opaque_path(o) -> bool:
+    """the outcome lies on a path whose condition involves a value the interpreter could not model"""
+    return any(type(at).__name__ == "Opaque" for c, t, _ in o.state.path for at in (c.left - c.right).atoms())
+
+
 def children_family(interp: Interp, c: Lin, b: Any):
     """-> (ListV | None, raises, other) for cell_to_children(c, b)"""
     outs = interp.run_function(SER, "cell_to_children", [c, b])
@@ -139,7 +144,7 @@ def check_pair(ctx, su: Setup, a: int, b: int):
             st, text = same_or_refuted(pouts[0].value, c, ctx.seed)
             ctx.ob("C06.1", f"{tag}: cell_to_parent(child, {a}) is the parent", st, core.loc(SER, pouts[0].node), text)
         else:
-            bad = [o for o in pouts if o.kind == "raise"]
+            bad = [o for o in pouts if o.kind == "raise" and not _opaque_path(o)]
             ctx.ob("C06.1", f"{tag}: cell_to_parent(child, {a}) has {len(pouts)} outcomes", core.VIOLATED if bad else core.UNDECIDED,
                    where, "; ".join(f"{o.kind} {_exc(o.value) if o.kind == 'raise' else o.value} on [{describe_path(o.state)}]" for o in pouts[:3]))
         # decode for the distinctness argument
@@ -241,7 +246,7 @@ def check_parent(ctx, su: Setup, r: int):
         if len(outs) == 1 and outs[0].kind == "return" and isinstance(outs[0].value, Lin):
             par[a] = outs[0].value
         else:
-            bad = [o for o in outs if o.kind == "raise"]
+            bad = [o for o in outs if o.kind == "raise" and not _opaque_path(o)]
             ctx.ob("C06.4", f"{Q}.cell_to_parent(res {r} -> {a}): {len(outs)} outcomes", core.VIOLATED if bad else core.UNDECIDED, where,
                    "; ".join(f"{o.kind} {_exc(o.value) if o.kind == 'raise' else o.value} on [{describe_path(o.state)}]" for o in outs[:3]))
     if -1 in par:
@@ -287,7 +292,9 @@ def check_parent(ctx, su: Setup, r: int):
     for name, sym in (("finer than the cell", Sym("a", r + 1, None)), ("below -1", Sym("a", None, -2))):
         outs = interp.run_function(SER, "cell_to_parent", [x, Lin.of(sym)])
         rets = [o for o in outs if o.kind == "return"]
-        if rets:
+        if rets and any(_opaque_path(o) for o in rets):
+            ctx.unk("C06.5", f"{Q}.cell_to_parent(res {r}, target {name})", core.loc(SER, rets[0].node), "a return on a path whose condition is not decided")
+        elif rets:
             ctx.bad("C06.5", f"{Q}.cell_to_parent(res {r}, target {name}) returns a cell", core.loc(SER, rets[0].node),
                     f"path [{describe_path(rets[0].state)}] returns {rets[0].value} instead of raising")
         elif outs:
@@ -299,7 +306,9 @@ def check_children_guards(ctx, su: Setup, a: int):
     c = su.ids[a]
     for name, sym in (("coarser than the cell", Sym("b", None, a - 1)), ("above MAX_RESOLUTION", Sym("b", consts.MAX + 1, None))):
         rets, raises = children_family(interp, c, Lin.of(sym))
-        if rets:
+        if rets and any(_opaque_path(o) for o in rets):
+            ctx.unk("C06.5", f"{Q}.cell_to_children(res {a}, target {name})", core.loc(SER, rets[0].node), "a return on a path whose condition is not decided")
+        elif rets:
             ctx.bad("C06.5", f"{Q}.cell_to_children(res {a}, target {name}) returns cells", core.loc(SER, rets[0].node),
                     f"path [{describe_path(rets[0].state)}] returns instead of raising")
         elif raises:
